@@ -108,6 +108,7 @@ func c15OutAlphabet(t int) []c15Sym {
 		}},
 		{"race+1", func(r *c15Run) (c15Op, bool) { return c15Op{K: "race", T: t, N: 1, W: len(r.hist) & 1}, true }},
 		{"jump+1", func(r *c15Run) (c15Op, bool) { return c15Op{K: "jump", T: t, N: 1}, true }},
+		{"jsync+1", func(r *c15Run) (c15Op, bool) { return c15Op{K: "jsync", T: t, N: 1}, true }},
 		{"del", func(r *c15Run) (c15Op, bool) { return c15Op{K: "del", T: t, I: 1, N: lowestLive(r)}, true }},
 		{"self-valid", func(r *c15Run) (c15Op, bool) {
 			return c15Op{K: "frame", T: t, I: 1, F: c15FMaxData, N: r.out[t].opened}, r.out[t].opened > 0
@@ -368,9 +369,9 @@ type c15Weighted struct {
 }
 
 var c15Profiles = map[string][]c15Weighted{
-	"mix": {{"open", 8}, {"sync", 8}, {"csync", 4}, {"race", 2}, {"jump", 1}, {"max", 9}, {"tp", 1}, {"acc", 8}, {"bacc", 3}, {"cacc", 2},
+	"mix": {{"open", 8}, {"sync", 8}, {"csync", 4}, {"race", 2}, {"jump", 1}, {"jsync", 1}, {"max", 9}, {"tp", 1}, {"acc", 8}, {"bacc", 3}, {"cacc", 2},
 		{"frame", 24}, {"del", 13}, {"reset0", 1}, {"usereset", 2}, {"close", 1}},
-	"fifo": {{"open", 5}, {"sync", 32}, {"csync", 9}, {"race", 9}, {"jump", 5}, {"max", 26}, {"tp", 1}, {"frame", 4}, {"del", 8}},
+	"fifo": {{"open", 5}, {"sync", 32}, {"csync", 9}, {"race", 9}, {"jump", 5}, {"jsync", 6}, {"max", 26}, {"tp", 1}, {"frame", 4}, {"del", 8}},
 }
 
 func c15RandomHistory(rng *rand.Rand, prof string, st c15Stats) *c15Run {
@@ -442,7 +443,7 @@ func c15RandomOp(rng *rand.Rand, r *c15Run, k, prof string) c15Op {
 		if len(o.waiters) > 0 {
 			op.W = rng.IntN(len(o.waiters))
 		}
-	case "jump":
+	case "jump", "jsync":
 		if len(o.waiters) == 0 {
 			t = 1 - t
 			op.T, o = t, &r.out[t]
